@@ -106,13 +106,13 @@ CHECKS["C16"] = dict(
 
 CHECKS["C04"] = dict(
   technique="symbolic execution of go/ssa with SMT (z3): symbolic values and symbolic wire bytes through the real DataType.Bytes / GoValue (encoding/binary, bytes.Buffer, math/big, time modelled), round trip compared bytewise",
-  text="Bounded symbolic model checking of asetypes.DataType.Bytes, GoValue/goValue, ByteSize, Decimal.* and the asetime helpers they call. Decided for all values of the Go type (full-width symbolic): INT1/2/4/8, UINT2/4/8, FLT4/FLT8 (all bit patterns), BIT, the nullable families INTN/UINTN/FLTN for every legal length with NULL = length 0, BINARY/VARBINARY/LONGBINARY/IMAGE and CHAR/VARCHAR/LONGCHAR/TEXT (lengths 0..4, arbitrary bytes), SHORTMONEY (all int32 counts), MONEY (decode direction, non-negative counts), DECN/NUMN (sign + 1..4 magnitude bytes): decode(encode(v)) = v and encode(decode(bytes)) = bytes. DATE: the calendar day is encoded regardless of the time of day for days within 1000 days of 1900-01-01 (solver-found defect for dates before 1900, fixed).",
-  note="Claimed in part. Trusted: symgo executor with its encoding/binary, bytes.Buffer, math/big and time.Time models (time: day number + nanoseconds, civil fields related by the days-from-civil formula, month case-split), z3. Outside / not decided: TIME, DATETIME, SHORTDATE, BIGDATETIMEN, BIGTIMEN round trips and DATE over the full 0001..9999 range (z3 answers unknown within 60 s for the mixed 64-bit wrap-around and calendar arithmetic; the harnesses are kept as Undecided* functions and are not run), the encode direction of 8-byte MONEY, UNITEXT (rune conversions are not modelled), strings longer than 4 bytes, the PARAMS/ROW package leg.",
+  text="Bounded symbolic model checking of asetypes.DataType.Bytes, GoValue/goValue, ByteSize, Decimal.* and the asetime helpers they call. Decided for all values of the Go type (full-width symbolic): INT1/2/4/8, UINT2/4/8, FLT4/FLT8 (all bit patterns), BIT, the nullable families INTN/UINTN/FLTN for every legal length with NULL = length 0, BINARY/VARBINARY/LONGBINARY/IMAGE and CHAR/VARCHAR/LONGCHAR/TEXT (lengths 0..4, arbitrary bytes), SHORTMONEY (all int32 counts), MONEY (decode direction, non-negative counts), DECN/NUMN (sign + 1..4 magnitude bytes): decode(encode(v)) = v and encode(decode(bytes)) = bytes. UNITEXT: every valid UTF-8 text of <=4 (quick) / 6 (thorough) bytes, all planes, without trailing NUL, survives encode+decode (solver-found defect, fixed). DATE: the calendar day is encoded regardless of the time of day for days within 1000 days of 1900-01-01 (solver-found defect for dates before 1900, fixed).",
+  note="Claimed in part. Trusted: symgo executor with its encoding/binary, bytes.Buffer, math/big and time.Time models (time: day number + nanoseconds, civil fields related by the days-from-civil formula, month case-split), z3. Outside / not decided: TIME, DATETIME, SHORTDATE, BIGDATETIMEN, BIGTIMEN round trips and DATE over the full 0001..9999 range (z3 answers unknown within 60 s for the mixed 64-bit wrap-around and calendar arithmetic; the harnesses are kept as Undecided* functions and are not run), the encode direction of 8-byte MONEY, strings longer than 4 bytes (UNITEXT: 4/6 bytes), UNITEXT texts ending in NUL (trimmed by design), the PARAMS/ROW package leg.",
   ref="DESIGN.md §4 C04")
 CHECKS["C05"] = dict(
   technique="symbolic execution of go/ssa with SMT (z3): the library's encodings compared bytewise with an independent reference layout written in the harness (shifts, sign byte + big-endian magnitude, high/low money words) for symbolic values and symbolic wire bytes",
-  text="Same harness family as C04 with the reference layout as oracle: little-endian two's complement integers of 1/2/4/8 bytes, IEEE bit patterns for FLT4/FLT8, BIT as 0/1, nullable families selecting the width by the length, binary/character data as the bytes themselves, SHORTMONEY as the 32-bit 1/10000 count, MONEY as high word then low word (decode direction, non-negative counts), DECN/NUMN as sign byte plus big-endian magnitude - decided in both directions (value -> prescribed bytes, prescribed bytes -> value) for all values within the stated bounds.",
-  note="Claimed in part. Trusted and outside: as C04. The calendar helpers (TimeToMicroseconds/MicrosecondsToTime/DurationFromDateTime agreeing with the proleptic Gregorian calendar for years 1..9999), the temporal layouts, UNITEXT as UTF-16LE and the big-endian byte order setting are not decided (solver unknown / not modelled).",
+  text="Same harness family as C04 with the reference layout as oracle: little-endian two's complement integers of 1/2/4/8 bytes, IEEE bit patterns for FLT4/FLT8, BIT as 0/1, nullable families selecting the width by the length, binary/character data as the bytes themselves, SHORTMONEY as the 32-bit 1/10000 count, MONEY as high word then low word (decode direction, non-negative counts), DECN/NUMN as sign byte plus big-endian magnitude, UNITEXT as UTF-16LE (encode: texts of <=4/6 UTF-8 bytes against a reference encoder written from the UTF-16 definition; decode: 1-2 arbitrary code units incl. surrogate pairs) - decided in both directions (value -> prescribed bytes, prescribed bytes -> value) for all values within the stated bounds.",
+  note="Claimed in part. Trusted and outside: as C04. The calendar helpers (TimeToMicroseconds/MicrosecondsToTime/DurationFromDateTime agreeing with the proleptic Gregorian calendar for years 1..9999), the temporal layouts and the big-endian byte order setting are not decided (solver unknown / not modelled); UNITEXT: unpaired surrogates and texts beyond the stated lengths are outside.",
   ref="DESIGN.md §4 C05")
 
 CHECKS["C17"] = dict(
